@@ -11,7 +11,7 @@
 (*                                                                         *)
 (* Every step that an application or a wire tap can see performs the       *)
 (* matching recording operator of ObsSys.tla, so the end-to-end rules      *)
-(* (bad01 .. bad13 stay empty) are checked by TLC on every interleaving of *)
+(* (bad01 .. bad14 stay empty) are checked by TLC on every interleaving of *)
 (* this model and, with the same formulas, on the traces of the real stack *)
 (* (Trace_Sys.tla).  With Phased = TRUE the environment acts only while    *)
 (* the system is idle, which is how the harness drives the real runtime    *)
@@ -21,7 +21,8 @@
 (***************************************************************************)
 EXTENDS ObsSys
 
-CONSTANTS Conns, Keys, Calls, N, L, Mif, Deadlines, MaxTime, MaxEnv, Phased, ExportSched
+CONSTANTS Conns, Keys, Calls, N, L, Mif, Deadlines, MaxTime, MaxEnv, Phased, ExportSched,
+          Faults    \* TRUE: the server's transport of a connection may fail once, at any moment
 
 VARIABLES y,        \* observer record (ObsSys)
           lq,       \* listener: connections offered, not yet looked at
@@ -189,6 +190,19 @@ S_SrvEnd(k) ==
   /\ y' = YServerDrop(y, k)
   /\ UNCHANGED <<lq, ckey, chand, cdead, closed, cq, cinf, cpend, c2s, sinf, respq, hs, cst, ck, dl, gate, now, phase, sched, nenv>>
 
+(* the server's transport of connection k reports a failure (at a read, a readiness check or a flush): the channel's   *)
+(* stream yields the error and ends, the channel is dropped - nothing more is read or written, responses not yet written *)
+(* are lost, its handlers are aborted - and the client sees the connection end                                           *)
+S_SrvFault(k) ==
+  /\ Faults /\ SysOK /\ srv[k] \in {"open", "eofseen"}
+  /\ srv' = [srv EXCEPT ![k] = "gone"]
+  /\ hs' = [c \in Calls |-> IF c \in sinf[k] THEN Abort(hs, c)[c] ELSE hs[c]]
+  /\ sinf' = [sinf EXCEPT ![k] = {}]
+  /\ respq' = [respq EXCEPT ![k] = <<>>]
+  /\ s2c' = [s2c EXCEPT ![k] = Append(@, <<"eof", 0>>)]
+  /\ y' = YServerDrop(YServerFault(y, k), k)
+  /\ UNCHANGED <<lq, ckey, chand, cdead, closed, cq, cinf, cpend, c2s, cst, ck, dl, gate, now, phase, sched, nenv>>
+
 (* ----------------------------- client side ----------------------------- *)
 (* the dispatch transmits the next queued request while it has capacity *)
 S_Send(k) ==
@@ -254,7 +268,7 @@ S_CliClose(k) ==
 
 SysStep ==
   \/ S_Arrive
-  \/ \E k \in Conns : S_Read(k) \/ S_WriteResp(k) \/ S_SrvEnd(k) \/ S_Send(k) \/ S_Cancel(k) \/ S_CliRecv(k) \/ S_CliEof(k) \/ S_CliClose(k)
+  \/ \E k \in Conns : S_Read(k) \/ S_WriteResp(k) \/ S_SrvEnd(k) \/ S_Send(k) \/ S_Cancel(k) \/ S_CliRecv(k) \/ S_CliEof(k) \/ S_CliClose(k) \/ S_SrvFault(k)
   \/ \E c \in Calls : S_HStart(c) \/ S_HFinish(c) \/ S_HDrop(c) \/ S_SrvExpire(c) \/ S_CliExpire(c) \/ S_Fail(c)
 
 (* guards of the system steps, for "nothing left to run" *)
